@@ -42,7 +42,7 @@ m = {
     'engines': [
         {'name': 'contracts', 'path': '/verif/check', 'serves_properties': sorted(PROPS), 'kind_free_text':
          'contract-based deductive verification: tools/vx.py extracts the functions from /repo, applies logged rewrite rules, merges the contracts of /verif/contracts/*.vrs and runs Verus; '
-         'tools/kx.py runs the Kani harnesses (loop-free, complete: K1, K3; bounded: K2, thorough tier of C07 only) on a scratch copy; /verif/bec is the bounded exhaustive contract checker (executable contracts on the real crate) used for the parts no verifier reaches and as counterexample finder / replay harness'},
+         'tools/kx.py runs the Kani harnesses (loop-free, complete: K1, K3, K5; bounded: K2, thorough tier of C07 only) on a scratch copy; /verif/bec is the bounded exhaustive contract checker (executable contracts on the real crate) used for the parts no verifier reaches and as counterexample finder / replay harness'},
     ],
     'checks': checks,
     'not_applicable': [],
